@@ -2,9 +2,10 @@
    The model is purely functional: a snapshot is a value, so "nothing the runner does afterwards
    changes it" and "restored runners do not influence one another" hold of the model by
    construction; whether the Go code shares maps is what the correspondence family observes (old
-   snapshots are re-read after further steps, two runners are restored from one snapshot). *)
+   snapshots are re-read after further steps, two runners are restored from one snapshot).
+   "Continues exactly as the original" is proved as a simulation (Proofs/SimProofs.v). *)
 From Coq Require Import List ZArith Bool.
-From YS Require Import Base.Sexp Yarn.Ast Yarn.Value Yarn.Eval Yarn.Runner Proofs.SafetyProofs.
+From YS Require Import Base.Sexp Yarn.Ast Yarn.Value Yarn.Eval Yarn.Runner Proofs.SafetyProofs Proofs.FlowProofs Proofs.StorerProofs Proofs.SimProofs.
 Import ListNotations.
 
 Theorem C07_restore_resumes_from_node_entry : forall d m sn m', restore_at d m sn = (true, m') ->
@@ -22,6 +23,33 @@ Theorem C07_restore_independent_of_receiver : forall d m1 m2 sn m1' m2',
   vsnap (dat m1') = vsnap (dat m2').
 Proof. exact restore_receiver_independent. Qed.
 Print Assumptions C07_restore_independent_of_receiver.
+
+(* "makes that runner continue exactly as the original did from that node entry": for a runner m0
+   standing at a node entry (what NewDialogueRunner and every jump produce), restoring its snapshot
+   into ANY runner m gives a runner that returns, for every subsequent choice sequence and fuel, the
+   same elements as m0 does - provided the host behaves the same from there on (same completion
+   schedule and commands) and the random stream to come is the same (irrelevant for scripts that
+   draw no random numbers).  [iter_next] = successive Next calls. *)
+Theorem C07_restore_continues_as_original : forall d m0 m m',
+  at_node_entry d m0 -> store_ok (vars (dat m0)) ->
+  restore_at d m (take_snapshot (dat m0)) = (true, m') -> same_env (dat m) (dat m0) ->
+  forall f cs, fst (iter_next d f m' cs) = fst (iter_next d f m0 cs).
+Proof. exact restore_continues_as_original. Qed.
+Print Assumptions C07_restore_continues_as_original.
+
+(* "runners restored from the same snapshot do not influence one another": whatever states the two
+   receivers were in, they continue identically *)
+Theorem C07_restored_runners_agree : forall d m1 m2 sn m1' m2',
+  restore_at d m1 sn = (true, m1') -> restore_at d m2 sn = (true, m2') -> same_env (dat m1) (dat m2) ->
+  forall f cs, fst (iter_next d f m1' cs) = fst (iter_next d f m2' cs).
+Proof. exact restored_runners_agree. Qed.
+
+(* underneath both: what a runner does next depends on its continuation, the storer's contents as a
+   map, the pending command, the current node, the visit counts, the host's command behaviour and
+   the random stream - not on logs, the checkpoint, or the internal layout of the store *)
+Theorem C07_next_depends_on_core_state_only : forall d f m1 m2 c, rsim m1 m2 ->
+  fst (next d f m1 c) = fst (next d f m2 c) /\ rsim (snd (next d f m1 c)) (snd (next d f m2 c)).
+Proof. exact next_sim. Qed.
 
 Theorem C07_snapshot_after_restore : forall d m sn m', restore_at d m sn = (true, m') ->
   take_snapshot (dat m') = sn.
